@@ -5,6 +5,7 @@
 //! Input: NDJSON, one job per line: {"q": [code points]} or {"qs": "text"}; optional
 //!   "reset": true (fresh context before this job), "render": true (also text / spans / JSON),
 //!   "dateval": true (C14: also the date value of a plain expression, see obs::datetime_json),
+//!   "clock": [y, m, d, h, mi, s] (C14: evaluate with the context clock set to this UTC time),
 //!   "expr": <AST json> (C11: print this expression instead of parsing text),
 //!   "clear_ans" / "preset" / "slim" / "st" (C15: see run_job).
 //! Output: one line per job: {"q", "ast", "obs", "ms"} or {"q", "crash": ...}.
@@ -131,7 +132,24 @@ fn run_job(ctx: &mut Context, job: &Value) -> Value {
     let mut it = TokenIterator::new(q.trim()).peekable();
     let query = parse_query(&mut it);
     let before = chrono::Local::now();
-    let reply = rink_core::eval(ctx, &q);
+    // C14: "clock": [year, month, day, hour, minute, second] (UTC) sets the context clock (Context::set_time) and the
+    // query is evaluated as it is, without rink_core::eval putting the clock back to the system time first
+    let reply = if let Some(c) = job["clock"].as_array() {
+        use chrono::TimeZone;
+        let f: Vec<i64> = c.iter().map(|x| x.as_i64().unwrap_or(-1)).collect();
+        let t = if f.len() == 6 {
+            chrono::Utc.with_ymd_and_hms(f[0] as i32, f[1] as u32, f[2] as u32, f[3] as u32, f[4] as u32, f[5] as u32).single()
+        } else {
+            None
+        };
+        match t {
+            Some(t) => ctx.set_time(t.with_timezone(&chrono::Local)),
+            None => return json!({"bad_job": true}),
+        }
+        ctx.eval_query(&query)
+    } else {
+        rink_core::eval(ctx, &q)
+    };
     // C15, the clock: rink_core::eval sets ctx.now at its start; no query may move it anywhere else
     // (5 s of slack for a stepping system clock)
     let slack = chrono::Duration::seconds(5);
